@@ -371,8 +371,16 @@ func main() {
 	if gen.Tier() == "thorough" {
 		n = 6000
 	}
+	mode := "node"
 	if len(os.Args) > 1 {
-		n, _ = strconv.Atoi(os.Args[1])
+		if v, err := strconv.Atoi(os.Args[1]); err == nil {
+			n = v
+		} else {
+			mode = os.Args[1]
+			if len(os.Args) > 2 {
+				n, _ = strconv.Atoi(os.Args[2])
+			}
+		}
 	}
 	p := gomonkey.ApplyFunc(time.Now, func() time.Time { return fakeNow })
 	defer p.Reset()
@@ -386,6 +394,14 @@ func main() {
 	if !e.VerifNilShardIsExpired(time.Second, time.Unix(12343, 0)) || e.VerifNilShardIsExpired(time.Second, time.Unix(12344, 0)) {
 		fmt.Fprintln(os.Stderr, "clock patch not seen by engine code")
 		os.Exit(3)
+	}
+	switch mode {
+	case "ix":
+		runIx(n)
+		return
+	case "wa":
+		runWA(n)
+		return
 	}
 	r := gen.FromEnv(14)
 	for i := 0; i < n; i++ {
